@@ -312,12 +312,13 @@ theorem C03_tx_fallback_is_presend_reading (w : World) (inv : WInv cap icap w) (
   unfold utxTxt
   simp [hl.1]
 
+end
+
 /-- receive-timestamp fallback: without a kernel receive timestamp the receive time of the
     exchange is the clock reading taken after the datagram was read (`timebase.Now()`), with a
     kernel timestamp it is that timestamp; the reply's receive timestamp encodes it (possibly
     moved later to keep the client's receive timestamps distinct). -/
-omit hcap hic hic2 in
-theorem C06_rx_fallback (w : World) (sk cl : Nat) (req : Req) (krx : Option Int) (nowRx now : Int) (kb : KB) :
+theorem C06_rx_fallback (cap icap : Nat) (w : World) (sk cl : Nat) (req : Req) (krx : Option Int) (nowRx now : Int) (kb : KB) :
     let o := (stepEv code cap icap w (.ntp sk cl req krx nowRx now kb)).2
     krx.getD nowRx ≤ o.rxt ∧ (∀ r, o.reply = some r → r.rx = ofTime o.rxt) ∧
     (krx = none → nowRx ≤ o.rxt) ∧ (∀ t, krx = some t → t ≤ o.rxt) := by
@@ -338,8 +339,6 @@ theorem C06_rx_fallback (w : World) (sk cl : Nat) (req : Req) (krx : Option Int)
   · intro r hr; simp only [Option.some.injEq] at hr; rw [← hr]; exact hle.2
   · intro h; subst h; exact hle.1
   · intro t h; subst h; exact hle.1
-
-end
 
 /-! ### finding F20: the listeners before the repair
 
